@@ -101,21 +101,21 @@ fn parse_frame_total<const N: usize>() {
 
 // @prop C06
 // @fn Connection::parse_frame, Frame::parse, BytesMut::advance
-// @bound every buffer content of 0..=10 bytes (two unknown-id frames, or one plus a header)
-// @outside buffers longer than 10 (quick) / 20 (thorough) bytes
+// @bound every buffer content of 0..=9 bytes (one unknown-id frame plus a header or a short frame)
+// @outside buffers longer than 9 (quick) / 20 (thorough) bytes
 // @assume Connection is built literally with a 32-byte BytesMut instead of Connection::new's 64 KiB one (capacity is not observable by parse_frame; the 64 KiB allocation alone costs 700 s of symbolic execution)
 // @desc parse_frame never panics (incl. unknown id whose body has not arrived), never consumes more than is buffered, delivers a frame exactly at the reference frame boundary, and errs only on streams the reference calls fatal
 #[kani::proof]
-#[kani::unwind(4)]
-fn c06_parse_frame_total_10() {
-    parse_frame_total::<10>();
+#[kani::unwind(3)]
+fn c06_parse_frame_total_9() {
+    parse_frame_total::<9>();
 }
 
 // @prop C06
 // @tier thorough
 // @fn Connection::parse_frame, Frame::parse, BytesMut::advance
 // @bound every buffer content of 0..=20 bytes
-// @desc as c06_parse_frame_total_10 up to 20 bytes
+// @desc as c06_parse_frame_total_9 up to 20 bytes (several skipped unknown-id frames)
 #[kani::proof]
 #[kani::unwind(6)]
 fn c06_parse_frame_total_20() {
@@ -163,20 +163,20 @@ fn recv_delivers_buffered<const N: usize>() {
 
 // @prop C06
 // @fn Connection::recv_frame, Connection::parse_frame, Frame::parse
-// @bound every buffered content of 0..=10 bytes, socket absent
-// @outside buffers longer than 10 (quick) / 16 (thorough) bytes; the socket read path of recv_frame (EOF, reset, re-segmentation) is not executed symbolically: Kani did not finish recv_frame with a scripted socket even for 6 concrete-length bytes (DESIGN 3.8)
+// @bound every buffered content of 0..=9 bytes, socket absent
+// @outside buffers longer than 9 (quick) / 16 (thorough) bytes; the socket read path of recv_frame (EOF, reset, re-segmentation) is not executed symbolically: Kani did not finish recv_frame with a scripted socket even for 6 concrete-length bytes (DESIGN 3.8)
 // @desc every complete message already received is delivered by recv_frame without waiting for further bytes, also when it sits behind skipped unknown-id messages; recv_frame turns to the socket only when nothing deliverable is buffered; malformed lengths yield an error
 #[kani::proof]
-#[kani::unwind(4)]
-fn c06_recv_frame_delivers_buffered_10() {
-    recv_delivers_buffered::<10>();
+#[kani::unwind(3)]
+fn c06_recv_frame_delivers_buffered_9() {
+    recv_delivers_buffered::<9>();
 }
 
 // @prop C06
 // @tier thorough
 // @fn Connection::recv_frame, Connection::parse_frame, Frame::parse
 // @bound every buffered content of 0..=16 bytes, socket absent
-// @desc as c06_recv_frame_delivers_buffered_10 up to 16 bytes (three unknown-id frames + a header)
+// @desc as c06_recv_frame_delivers_buffered_9 up to 16 bytes (three unknown-id frames + a header)
 #[kani::proof]
 #[kani::unwind(5)]
 fn c06_recv_frame_delivers_buffered_16() {
